@@ -596,7 +596,7 @@ func init() {
 			}
 			for _, inv := range t.Invs {
 				if inv.RdvTO {
-					res.Viols = append(res.Viols, ev.V("C07", "cont-not-rerun", inv.Addr.Scope()[:1], "sequence action %s waited 30 s for further runs of the scope's continuous check, which never came", inv.Tag))
+					res.Viols = append(res.Viols, ev.V("C07", "cont-not-rerun", inv.Addr.Scope()[:1], "sequence action %s waited 8 s for further runs of the scope's continuous check, which never came", inv.Tag))
 				}
 			}
 		}, true),
@@ -610,7 +610,7 @@ func init() {
 			}
 			return ""
 		},
-		Assumptions: []string{"'keeps being re-run' is decided as bounded progress: k further runs within a 30 s watchdog (nominal: k x 3 ms)"},
+		Assumptions: []string{"'keeps being re-run' is decided as bounded progress: k further runs within an 8 s watchdog (nominal: k x 3 ms)"},
 	})
 	register(&Prop{
 		ID: "C08", Level: "exploration", Batch: 16, PerCaseTimeout: 70 * time.Second,
